@@ -104,6 +104,14 @@ func (c RawConfiguration) CorrectableCall(ctx context.Context, d CorrectableCall
 	expectedReplies := len(c)
 	md := &ordering.Metadata{MessageID: c.getMsgID(), Method: d.Method}
 
+	corr := &Correctable{level: LevelNotSet, donech: make(chan struct{}, 1)}
+	var streamDone <-chan struct{}
+	if d.ServerStream {
+		// nodes may send any number of responses; they must not wait for this
+		// call to receive them once it has completed.
+		streamDone = corr.donech
+	}
+
 	replyChan := make(chan response, expectedReplies)
 	for _, n := range c {
 		msg := d.Message
@@ -114,10 +122,8 @@ func (c RawConfiguration) CorrectableCall(ctx context.Context, d CorrectableCall
 				continue // don't send if no msg
 			}
 		}
-		n.channel.enqueue(request{ctx: ctx, msg: &Message{Metadata: md, Message: msg}}, replyChan, d.ServerStream)
+		n.channel.enqueue(request{ctx: ctx, msg: &Message{Metadata: md, Message: msg}, done: streamDone}, replyChan, d.ServerStream)
 	}
-
-	corr := &Correctable{level: LevelNotSet, donech: make(chan struct{}, 1)}
 
 	go c.handleCorrectableCall(ctx, corr, correctableCallState{
 		md:              md,
@@ -138,25 +144,9 @@ func (c RawConfiguration) handleCorrectableCall(ctx context.Context, corr *Corre
 	)
 
 	if state.data.ServerStream {
-		defer func() {
-			// Keep receiving while the routers are removed: a node that has more
-			// replies than the reply channel can hold blocks in routeResponse with
-			// the routing lock held, which deleteRouter needs.
-			done := make(chan struct{})
-			go func() {
-				for {
-					select {
-					case <-state.replyChan:
-					case <-done:
-						return
-					}
-				}
-			}()
-			for _, n := range c {
-				n.channel.deleteRouter(state.md.MessageID)
-			}
-			close(done)
-		}()
+		for _, n := range c {
+			defer n.channel.deleteRouter(state.md.MessageID)
+		}
 	}
 
 	for {
